@@ -13,7 +13,7 @@ CFG = dict(
                "metamorphic oracle on the real code (same command in a fresh session with the same options must give byte-identical output; the "
                "profile handed to each report must deep-equal the pristine decode; the loaded profile must be unchanged afterwards). Report "
                "generation itself is abstract in the model. Trusted: Coq kernel + vm_compute, translators gen-configtable/gen-commandtable, harness.",
-    translators=[("gen-configtable", "Gen/Gen_ConfigTable.v"), ("gen-commandtable", "Gen/Gen_CommandTable.v")],
+    translators=[("gen-configtable", "Gen/Gen_ConfigTable.v"), ("gen-commandtable", "Gen/Gen_CommandTable.v"), ("gen-unittable", "Gen/Gen_UnitTable.v")],
     rule="cases = (a) session: random valid profile (1-3 sample types, labels) x initial option state (default or random) x 2-12 lines (thorough: "
          "up to 32) mixing assignments (every option, valid/invalid values, spacing, //: comments, bare bool names, choices as variables, "
          "shortcuts ':' / sample types / total_ / mean_), commands (top text tree peek list traces tags raw dot comments callgrind proto topproto "
